@@ -394,6 +394,8 @@ def run(ctx, col, tier):
             col.check(bad is None, "R-KEEP", ini.qualname, ini.loc(st[0]), f"`self.{attr}` is the `{prm}` the caller gave, for {wit}", norm_src(st[0]),
                       f"`{norm_src(st[0])}` turns {prm}={bad[0] if bad else ''} into {bad[1] if bad else ''}: the caller's "
                       + ("branching limit" if attr == "furcations" else "root exemption") + " is silently replaced", stmt=f"keep:{attr}", definite=True)
+    from ..rules import smalllints2 as _s2
+    _s2.run_sqdtype(ctx, col, ('swcgeom.transforms.mst',))
     from ..rules import ignoredparam
     ignoredparam.run(ctx, col, (MST,))
 
